@@ -54,6 +54,7 @@ def run(ctx):
         from .. import named
         named.monitor(ctx, ['bezier:bezier3_solve', 'bezier:bezier3_traj', 'bezier:bezier7_solve', 'bezier:bezier7_traj', 'bezier:bezier_multirotor'], ctx.rng("named"))
         ctx.require("call_by_argument_name", "(by-name calls never evaluated)")
+        named.derivation_history(ctx, ['bezier'], ctx.rng("named2"))
     from cyecca.models import bezier as bz
     rng = ctx.rng("c18")
     if ctx.shard % 2 == 0:
